@@ -3,21 +3,21 @@ use crate::{guarded, Cex, Lcg, Outcome};
 use rlib_bitset::Bitset;
 use std::collections::BTreeSet;
 
-const N: usize = 2;
 type Op = (char, u64, u64);
 
-fn from_words(w0: u64, w1: u64) -> (Bitset<N>, BTreeSet<usize>) {
+fn from_words<const N: usize>(w0: u64, w1: u64) -> (Bitset<N>, BTreeSet<usize>) {
     let mut b = Bitset::<N>::new();
     let mut s = BTreeSet::new();
-    for i in 0..64 { if w0 >> i & 1 == 1 { b.set(i); s.insert(i); } if w1 >> i & 1 == 1 { b.set(64 + i); s.insert(64 + i); } }
+    for i in 0..64 { if w0 >> i & 1 == 1 { b.set(i); s.insert(i); } if N >= 2 && w1 >> i & 1 == 1 { b.set(64 * (N - 1) + i); s.insert(64 * (N - 1) + i); } }
     (b, s)
 }
 
-fn exec(ops: &[Op]) -> Option<(String, String)> {
+fn exec<const N: usize>(ops: &[Op]) -> Option<(String, String)> {
     let r = guarded(|| {
         let mut b = Bitset::<N>::new();
         let mut s: BTreeSet<usize> = BTreeSet::new();
         for &(op, x, y) in ops {
+            let x = if "srf".contains(op) { x % (64 * N as u64) } else { x };
             match op {
                 's' => { b.set(x as usize); s.insert(x as usize); }
                 'r' => { b.remove(x as usize); s.remove(&(x as usize)); }
@@ -25,7 +25,7 @@ fn exec(ops: &[Op]) -> Option<(String, String)> {
                 'c' => { b.clear(); s.clear(); }
                 'W' => { b = Bitset::<N>::from_u64(x); s = (0..64).filter(|i| x >> i & 1 == 1).collect(); }
                 'A' | 'O' | 'X' | 'a' | 'o' | 'x' => {
-                    let (o, os) = from_words(x, y);
+                    let (o, os) = from_words::<N>(x, y);
                     let ns: BTreeSet<usize> = match op.to_ascii_uppercase() { 'A' => s.intersection(&os).cloned().collect(), 'O' => s.union(&os).cloned().collect(), _ => s.symmetric_difference(&os).cloned().collect() };
                     match op { 'A' => b = &b & &o, 'O' => b = &b | &o, 'X' => b = &b ^ &o, 'a' => b &= &o, 'o' => b |= &o, _ => b ^= &o }
                     s = ns;
@@ -46,9 +46,9 @@ fn exec(ops: &[Op]) -> Option<(String, String)> {
             for i in 0..64 * N { if b.test(i) != s.contains(&i) { return Some((format!("test({}) = {}", i, b.test(i)), format!("{}", s.contains(&i)))); } }
             let txt: String = (0..64 * N).map(|i| if s.contains(&i) { '1' } else { '0' }).collect();
             if format!("{}", b) != txt || format!("{:?}", b) != txt { return Some((format!("rendering {}", b), txt)); }
-            let (same, _) = { let mut w = [0u64; 2]; for &i in &s { w[i / 64] |= 1 << (i % 64); } from_words(w[0], w[1]) };
+            let (same, _) = { let mut w = [0u64; 2]; for &i in &s { if i < 64 { w[0] |= 1 << i; } else if i >= 64 * (N - 1) { w[1] |= 1 << (i % 64); } } let (mut bb, ss) = from_words::<N>(w[0], w[1]); for &i in &s { bb.set(i); } (bb, ss) };
             if !(b == same) { return Some(("== with an equal set is false".into(), "true".into())); }
-            let mut other = same; other.flip(127);
+            let mut other = same; other.flip(64 * N - 1);
             if b == other { return Some(("== with a different set is true".into(), "false".into())); }
         }
         None
@@ -60,8 +60,11 @@ fn enc(ops: &[Op]) -> String { ops.iter().map(|(o, x, y)| format!("{}{}:{}", o, 
 
 pub fn run(seed: u64, replay: Option<String>) -> Outcome {
     if let Some(r) = replay {
-        let ops: Vec<Op> = r.split(',').filter(|x| !x.is_empty()).map(|o| { let c = o.chars().next().unwrap(); let p: Vec<u64> = o[1..].split(':').map(|x| x.parse().unwrap_or(0)).collect(); (c, p[0], *p.get(1).unwrap_or(&0)) }).collect();
-        return Outcome { cex: exec(&ops).map(|(o, e)| Cex { input: r.clone(), observed: o, expected: e }), cases: 1 };
+        let body = r.split('|').last().unwrap_or("").to_string();
+        let ops: Vec<Op> = body.split(',').filter(|x| !x.is_empty()).map(|o| { let c = o.chars().next().unwrap(); let p: Vec<u64> = o[1..].split(':').map(|x| x.parse().unwrap_or(0)).collect(); (c, p[0], *p.get(1).unwrap_or(&0)) }).collect();
+        let n: usize = r.split('|').next().and_then(|x| x.parse().ok()).unwrap_or(2);
+        let res = match n { 1 => exec::<1>(&ops), 3 => exec::<3>(&ops), _ => exec::<2>(&ops) };
+        return Outcome { cex: res.map(|(o, e)| Cex { input: r.clone(), observed: o, expected: e }), cases: 1 };
     }
     let mut rng = Lcg(seed ^ 0xc12);
     let mut cases = 0;
@@ -76,7 +79,10 @@ pub fn run(seed: u64, replay: Option<String>) -> Outcome {
             ops.push((k, x, y));
         }
         cases += 1;
-        if let Some((o, e)) = exec(&ops) { return Outcome { cex: Some(Cex { input: enc(&ops), observed: o, expected: e }), cases }; }
+        for n in [2usize, 1, 3] {
+            let res = match n { 1 => exec::<1>(&ops), 3 => exec::<3>(&ops), _ => exec::<2>(&ops) };
+            if let Some((o, e)) = res { return Outcome { cex: Some(Cex { input: format!("{}|{}", n, enc(&ops)), observed: format!("N={}: {}", n, o), expected: e }), cases }; }
+        }
     }
     Outcome { cex: None, cases }
 }
